@@ -186,6 +186,28 @@ Definition h2_end_as_chunk (end_chunk : bool) : list byte :=
 Definition h2_upload_as_h1 (frames : list (list byte)) (ended : bool) (end_chunk : bool) : list byte :=
   flat_map h2_data_as_chunk frames ++ (if ended then h2_end_as_chunk end_chunk else []).
 
+(** the same upload ended by a trailer block (HEADERS with END_STREAM after the DATA frames,
+    lib/src/protocol/mux/pkawa.rs handle_trailer): the end-of-body flags — the last-chunk line
+    only, [end_chunk = false] in the source —, one line per field, the empty line that closes
+    the trailer section.  Under content-length framing the fields cannot be carried: nothing
+    is written after the body. *)
+Definition trailer_line (kv : list byte * list byte) : list byte :=
+  fst kv ++ [58; 32]%N ++ snd kv ++ [13; 10]%N.
+Definition trailer_section (fields : list (list byte * list byte)) : list byte :=
+  flat_map trailer_line fields ++ [13; 10]%N.
+Definition h2_trailers_as_h1 (end_chunk : bool) (fields : list (list byte * list byte)) : list byte :=
+  h2_end_as_chunk end_chunk ++ trailer_section fields.
+Definition h2_upload_trailers_as_h1 (frames : list (list byte)) (chunked : bool) (end_chunk : bool)
+           (fields : list (list byte * list byte)) : list byte :=
+  if chunked then flat_map h2_data_as_chunk frames ++ h2_trailers_as_h1 end_chunk fields
+  else concat frames.
+(** side conditions of the statements: a field has no CR in its name or value (the H2 header
+    validation of the source rejects them), a DATA payload is shorter than 16^20 bytes (the
+    hex rendering below is given 20 digits) *)
+Definition field_ok (kv : list byte * list byte) : Prop :=
+  Forall (fun x => x <> 13%N) (fst kv) /\ Forall (fun x => x <> 13%N) (snd kv).
+Definition frame_ok (d : list byte) : Prop := (N.of_nat (length d) < 16 ^ 20)%N.
+
 (** * The H2 block converter on body blocks (lib/src/protocol/mux/converter.rs,
     H2BlockConverter::call, arms Block::Chunk and Block::Flags{end_stream}) driven
     by kawa.prepare: blocks are popped until the converter says stop. *)
